@@ -4,6 +4,7 @@ import Drv.Classes
 import Drv.Registry
 import Drv.Components
 import Drv.World
+import Drv.Order
 /-! Line-protocol driver: `driver <layer> [args]` reads operation lines on stdin and prints one
     answer line per operation, computed by the executable model definitions. -/
 def main (args : List String) : IO Unit := do
@@ -14,4 +15,5 @@ def main (args : List String) : IO Unit := do
   | "registry" :: _ => Drv.Registry.main
   | "components" :: _ => Drv.Components.main
   | "world" :: _ => Drv.World.main
+  | "order" :: rest => Drv.Order.main rest
   | _ => IO.eprintln "usage: driver <layer>"
